@@ -1,12 +1,22 @@
 #!/bin/sh
-# tools/mutcheck.sh <patch.diff> <check-id>...   apply a seeded change to /repo, run the checks, undo it
+# tools/mutcheck.sh <patch.diff> <check-id>...   run checks against a seeded change.
+# default: apply the change to /repo, run the checks, undo it straight afterwards (git -C /repo checkout -- .)
+# MUT_WT=1: evaluate it in a throw-away worktree of /repo's HEAD instead (PYTHONPATH + VERIF_PINT_ROOT), leaving /repo alone,
+#           so that several changes can be evaluated while other runs use /repo
 d="$1"; shift
-git -C /repo diff --quiet || { echo "/repo not clean"; exit 2; }
-git -C /repo apply "$d" || { echo "patch does not apply"; exit 2; }
+if [ -n "$MUT_WT" ]; then
+  wt=$(mktemp -d /var/tmp/mutwt.XXXXXX); rmdir $wt
+  git -C /repo worktree add --detach $wt HEAD >/dev/null 2>&1 || { echo "cannot create worktree"; exit 2; }
+  git -C $wt apply "$d" || { echo "patch does not apply"; git -C /repo worktree remove --force $wt; exit 2; }
+  export PYTHONPATH=$wt VERIF_PINT_ROOT=$wt
+else
+  git -C /repo diff --quiet || { echo "/repo not clean"; exit 2; }
+  git -C /repo apply "$d" || { echo "patch does not apply"; exit 2; }
+fi
 for c in "$@"; do
   out=$(cd /verif && ./check "$c" --tier quick 2>&1); rc=$?
   echo "== $c rc=$rc  $(echo "$out" | grep -c '^VIOLATION') violation line(s)"
   echo "$out" | grep -A1 '^VIOLATION' | head -8
   echo "$out" | grep 'MACHINERY' | head -3
 done
-git -C /repo checkout -- .
+if [ -n "$MUT_WT" ]; then git -C /repo worktree remove --force $wt; else git -C /repo checkout -- .; fi
